@@ -69,7 +69,8 @@ pub fn write(
 
     let length = len(disconnect, properties);
 
-    if length == 2 {
+    // the two-byte form `e0 00`: normal disconnection without properties
+    if disconnect.reason_code == DisconnectReasonCode::NormalDisconnection && properties.is_none() {
         buffer.put_u8(0x00);
         return Ok(length);
     }
